@@ -540,8 +540,15 @@ def oracle(case, settle_steps):
     for tid, kj, n in case["nb_blocked"]:
         fails.append({"what": "non-blocking recv on %s by thread %d has not returned after %d steps "
                               "(it must report emptiness, not block)" % (kj, tid, n), "key": kj})
+    n_conn = {}
+    for t, prog in enumerate(case["progs"]):
+        for op in prog:
+            if op[0] == "c":
+                n_conn[(t, op[1], op[2])] = n_conn.get((t, op[1], op[2]), 0) + 1
     for tid, kj in case["stuck_in_connect"]:
         peer = tuple(rkey(tuple(kj)))
+        if n_conn.get(tuple(kj), 0) > 1 or n_conn.get(peer, 0) > 1:
+            continue   # after a disconnect the own side has removed the peer's key from _remote_sockets
         at = case["ever_open_at"].get(peer)
         # after the peer published, the waiting thread executes at most cWaitRemote + cWaitOpen + cWaitRemote
         # before it must see the peer
@@ -698,6 +705,11 @@ def _check_cases(cases, driver, summary, settle):
             summary["dist"]["callback-delivery"] = summary["dist"].get("callback-delivery", 0) + 1
         if c["structured"]:
             summary["dist"]["structured"] = summary["dist"].get("structured", 0) + 1
+        if any(sum(1 for o in p if o[0] == "c" and (o[1], o[2]) == (q[1], q[2])) > 1 for p in c["progs"] for q in p
+               if q[0] == "c"):
+            summary["dist"]["reconnect-history"] = summary["dist"].get("reconnect-history", 0) + 1
+        if any(r[0] in ("sent", "got") and r[2] == 0 for rs in c["res"] for r in rs):
+            summary["dist"]["empty-string-message"] = summary["dist"].get("empty-string-message", 0) + 1
         if "error" in m:
             df = {"step": -1, "why": m["error"]}
         else:
@@ -840,6 +852,9 @@ def gen_programs(rng, n_nodes=None, max_ops=4):
                 first = len([o for o in progs[t] if o[0] == "c"])
                 pos = rng.randrange(first, len(progs[t]) + 1)
                 progs[t].insert(pos, ("d", other, sid))
+                if rng.random() < 0.25:     # disconnect-reconnect history: the same key, a new socket object
+                    pos2 = rng.randrange(pos + 1, len(progs[t]) + 1)
+                    progs[t].insert(pos2, ("c", other, sid, int(cb[(t, other, sid)])))
     return progs, structured
 
 
